@@ -304,7 +304,7 @@ def up(n):
         if t == "byte":
             return "b%d" % n["v"]
         if t == "char":
-            return "'%s'" % n["v"]
+            return "'%s'" % n["v"].replace("\\", "\\\\").replace("\t", "\\t").replace("\n", "\\n").replace("\0", "\\0")
         return str(n["v"])
     if k == "path":
         g = n.get("generics")
